@@ -16,8 +16,8 @@
 
 using namespace mpt;
 
-static double *data;
-static size_t dlen;
+static double *data, *data2;
+static size_t dlen, dlen2;
 static struct range rng;
 static int ranged;
 static int shift;
@@ -27,6 +27,7 @@ static void drv_reset(void)
 {
 	alarm(4);   /* a behaviour is a few calls on small data: a longer run is a hang */
 	free(data); data = 0; dlen = 0;
+	free(data2); data2 = 0; dlen2 = 0;
 	ranged = 1; shift = 0;
 	delete arr; arr = 0;
 }
@@ -86,6 +87,11 @@ static void drv_step(struct cmd *c)
 		for (i = 0; i < n; i++) data[i] = (double) v[i] * f;
 		free(v);
 		dlen = n;
+		v = drv_ints(c, "data2", &n);
+		data2 = (double *) malloc(n ? n * sizeof(*data2) : 1);
+		for (i = 0; i < n; i++) data2[i] = (double) v[i] * f;
+		free(v);
+		dlen2 = n;
 		rng.min = (double) drv_int(c, "lo", 0) * f;
 		rng.max = (double) drv_int(c, "hi", 0) * f;
 		ranged = (int) drv_int(c, "ranged", 1);
@@ -114,6 +120,50 @@ static void drv_step(struct cmd *c)
 		j_int("set", sok);
 		j_int("raw", arr->length_raw());
 		j_int("usr", arr->length_user());
+		drv_end();
+		return;
+	}
+	if (!strcmp(a, "apply2")) {
+		/* both dimensions: the second applied onto the parts of the first; polyline::set on two stores */
+		const char *mode = drv_raw(c, "mode");
+		layout::graph::transform3 tr;
+		value_store st[2];
+		polyline pl;
+		bool ok;
+		setup(tr);
+		tr._dim[1].scale = 1.0;
+		tr._dim[1].add = 0.0f;
+		tr._dim[1].to.x = 0;
+		tr._dim[1].to.y = 1;
+		tr._dim[1]._flags = ranged ? TransformLimit : 0;
+		tr._dim[1].limit = rng;
+		delete arr;
+		arr = new linepart::array;
+		if (mode && !strcmp(mode, "set")) arr->set((long) dlen);
+		arr->apply(tr, 0, span<const double>(data, (long) dlen));
+		arr->apply(tr, 1, span<const double>(data2, (long) dlen2));
+		if (!st[0].set(span<const double>(data, (long) dlen)) || !st[1].set(span<const double>(data2, (long) dlen2))) { bad(c, "bad-store"); return; }
+		ok = pl.set(tr, span<const value_store>(st, 2));
+		drv_begin(c);
+		emit_parts(arr->elements());
+		j_arr_open("pparts");
+		{
+			span<const linepart> ps = pl.parts();
+			for (const linepart *p = ps.begin(), *e = ps.end(); p < e; ++p) {
+				j_sep();
+				fprintf(drv_out, "[%d,%d,%d,%d]", p->raw, p->usr, p->_cut, p->_trim);
+			}
+		}
+		j_arr_close();
+		j_arr_open("np");
+		for (polyline::iterator it = pl.begin(), e = pl.end(); it != e; ++it) {
+			polyline::part p = *it;
+			long n = p.points().size();
+			j_item_int(n < 0 || n > 1000000000L ? -1 : n);
+		}
+		j_arr_close();
+		drv_dbg();
+		j_int("ret", ok);
 		drv_end();
 		return;
 	}
